@@ -34,6 +34,21 @@ LV_INIT = {   # LocalVariables { in_loop: .. } aggregates: body -> expected in_l
 }
 
 
+def _from_fresh_scope(b, o, depth=0):
+    """operand o is the `in_loop` field of a value returned by a constructor whose own in_loop is the constant false (`..Self::new(i)`)"""
+    if not isinstance(o, dict) or o.get("l") is None or depth > 4:
+        return False
+    fields = [p.get("name") for p in o.get("p", []) if p.get("k") == "field"]
+    if fields == ["in_loop"]:
+        return any(k == "call" and ((d["func"].get("fn") or {}).get("resolved") or (d["func"].get("fn") or {}).get("path")) in
+                   [f for f, w in LV_INIT.items() if w == "false"] for _, k, d in b.def_sites(o["l"]))
+    if not fields:
+        for _, k, d in b.def_sites(o["l"]):
+            if k == "assign" and d["rv"]["k"] == "use" and _from_fresh_scope(b, d["rv"]["o"], depth + 1):
+                return True
+    return False
+
+
 def _reads_in_loop(b, l, depth):
     """local `l` holds (a copy of) a value read from a LocalVariables.in_loop field"""
     if l is None or depth > 4:
@@ -298,6 +313,8 @@ def run(ctx):
             elif want == "false":
                 if o.get("k") == "const" and o.get("val") == "false":
                     res.ok(key, b.where(s.get("line")))
+                elif _from_fresh_scope(b, o):
+                    res.ok(key, b.where(s.get("line")), "taken from a scope just built by a constructor that starts with in_loop = false (struct update)")
                 else:
                     res.bad(key, "%s must start a scope with in_loop=false (a function body / fresh parse is not inside the "
                                  "caller's loop)" % b.id, b.where(s.get("line")))
